@@ -877,6 +877,13 @@ class PEval:
                         out = True
                     elif not (v is None or isinstance(v, (int, float, str, list, tuple, Sym))):
                         raise Undecided("isinstance(%r, %s)" % (v, t))
+                elif t in ("Iterable", "collections.abc.Iterable", "abc.Iterable", "typing.Iterable", "Sequence", "collections.abc.Sequence", "typing.Sequence", "Iterator", "collections.abc.Iterator"):
+                    if isinstance(v, (list, tuple, range)):
+                        out = True
+                    elif isinstance(v, PIter):
+                        out = out or t.split(".")[-1] != "Sequence"
+                    elif not (v is None or isinstance(v, (int, float, Stage, Sym))):
+                        raise Undecided("isinstance(%r, %s)" % (v, t))
                 elif t in ("int", "float", "str", "bool"):
                     if isinstance(v, (Sym, Shape)):
                         raise Undecided("isinstance(%r, %s)" % (v, t))
